@@ -35,6 +35,43 @@ def run(ctx):
     def colour(alpha):
         c = rnd.choice(rgb)
         return c if alpha is None else c + (alpha,)
+    # ---- P2 on exact pixels: QRColorMask.apply_mask on a two-pixel image (one background pixel, one paint pixel) vs
+    #      Model.applyMaskPixel, for EVERY channel distance 1..255 (RGB: back=(d,d,d) on black paint; RGBA: alpha 255-d),
+    #      mixed distances and random colours
+    pairs = []
+    for d in range(1, 256):
+        pairs.append(((d, d, d), (255, 255, 255)))
+        pairs.append(((255, 255, 255, 255 - d), (0, 0, 0, 255)))
+        pairs.append(((d, (d * 7) % 255 + 1, 255 - d if d < 255 else 3), (255, 0, 128)))
+    for _ in range(4000 if tier == "thorough" else 800):
+        n4 = rnd.random() < 0.4
+        b = tuple(rnd.randrange(256) for _ in range(4 if n4 else 3))
+        f = tuple(rnd.randrange(256) for _ in range(4 if n4 else 3))
+        pairs.append((b, f))
+    reqs, exps, pmeta = [], [], []
+    for back_, front_ in pairs:
+        paint_ = (tuple(back_[:3]) + (255,)) if len(back_) == 4 else (0,) * len(back_)
+        if tuple(paint_) == tuple(back_):
+            continue
+        m_ = CM.SolidFillColorMask(back_color=back_, front_color=front_)
+        m_.paint_color = paint_
+        im_ = Image.new("RGBA" if len(back_) == 4 else "RGB", (2, 1), back_)
+        im_.putpixel((1, 0), paint_)
+        try:
+            CM.QRColorMask.apply_mask(m_, im_)
+            got_ = (im_.getpixel((0, 0)), im_.getpixel((1, 0)))
+        except Exception as e:  # noqa
+            got_ = (f"{type(e).__name__}",) * 2
+        for pix_, g_ in ((back_, got_[0]), (paint_, got_[1])):
+            reqs.append(f"applymask {fmt_list(back_)} {fmt_list(paint_)} {fmt_list(front_)} {fmt_list(pix_)}")
+            exps.append("ok " + (fmt_list(g_) if not isinstance(g_, str) else g_) + " " + fmt_list(paint_))
+            pmeta.append((back_, front_))
+    directed = []
+    for rq, e, g, pm in zip(reqs, exps, ask_parallel(reqs, chunk=4000), pmeta):
+        if not R.corr("applymask", rq, e, g, tag="P2:applymask") and pm not in directed:
+            directed.append(pm)
+    R.exhaustive.append("apply_mask on exact pixels for every channel distance 1..255 between background and paint colour (RGB and alpha)")
+    log(f"P2 applymask: {len(reqs)} pixel evaluations, {len(directed)} colour pairs disagree")
     N = 500 if tier == "thorough" else 70
     cases = []
     for i in range(N):
@@ -48,6 +85,9 @@ def run(ctx):
         border = rnd.choice([0, 1, 2, 4])
         logo = rnd.choice([None, None, None, ("rgb", 0.25), ("rgba", 0.33), ("rgb", 0.1), ("rgb", 0.5)])
         cases.append((dname, dmk, mk, back, c1, c2, box, border, logo))
+    # diff-directed search: colour pairs on which the exact-pixel correspondence broke are rendered for real
+    for back_, front_ in directed[:6]:
+        cases.insert(0, ("square", drawers[0][1], "solid", back_, front_, front_, 6, 0, None))
     # the default configuration and the existing-suite style ones first
     cases.insert(0, ("square", drawers[0][1], "default", (255, 255, 255), (0, 0, 0), (0, 0, 0), 10, 4, None))
     for dname, dmk in drawers:          # every drawer at box sizes of each residue class mod 4, plain colours
